@@ -205,6 +205,29 @@ def expr_conditions(node, stop):
     return out
 
 
+def ifexp_leaves(expr):
+    """The alternative values of an expression: the arms of (nested)
+    conditional expressions, or the expression itself.  ``PathInfo.at(leaf)``
+    includes the conditions that select the arm, so a conditional expression
+    and the equivalent if/else statement read the same."""
+    if isinstance(expr, ast.IfExp):
+        return ifexp_leaves(expr.body) + ifexp_leaves(expr.orelse)
+    return [expr]
+
+
+def assigned_alternatives(funcnode, name):
+    """[(value expression, statement)] over every plain assignment to the
+    local ``name``, conditional expressions split into their arms."""
+    out = []
+    from .model import own_nodes
+    for n in own_nodes(funcnode):
+        if isinstance(n, ast.Assign) and len(n.targets) == 1 and \
+                isinstance(n.targets[0], ast.Name) and n.targets[0].id == name:
+            for leaf in ifexp_leaves(n.value):
+                out.append((leaf, n))
+    return out
+
+
 _cache = {}
 
 
